@@ -134,3 +134,76 @@ def _(c):
 def _(c):
     x = c.bits('x', 64)
     c.ensure('canary', val.eq(c.call(des.IP, c.call(des.IP, x)).ival, x.ival))
+
+# =====================================================================  Serpent
+from spec import serpent as SP, threefish as TF
+import crysp.serpent as serpent, crysp.threefish as threefish, crysp.salsa20 as salsa20, crysp.chacha as chacha
+from props.sym_common import *
+
+@obligation(P, 'crysp.serpent._S-_Sinv/inverse', cls='L', cases={'i': list(range(8))}, funcs=['crysp.serpent._S', 'crysp.serpent._Sinv'], timeout=200)
+def _(c):
+    i = c.case('i'); X = c.bits('X', 128)
+    c.ensure('Sinv(S(x))', val.eq(c.call(serpent._Sinv, i, c.call(serpent._S, i, X)).ival, X.ival))
+    c.ensure('S(Sinv(x))', val.eq(c.call(serpent._S, i, c.call(serpent._Sinv, i, X)).ival, X.ival))
+
+@obligation(P, 'crysp.serpent.IP-FP-L/inverse', cls='L', funcs=['crysp.serpent._IP', 'crysp.serpent._FP', 'crysp.serpent._L', 'crysp.serpent._Linv'], timeout=200)
+def _(c):
+    X = c.bits('X', 128)
+    c.ensure('FP(IP(x))', val.eq(c.call(serpent._FP, c.call(serpent._IP, X)).ival, X.ival))
+    c.ensure('IP(FP(x))', val.eq(c.call(serpent._IP, c.call(serpent._FP, X)).ival, X.ival))
+    c.ensure('Linv(L(x))', val.eq(c.call(serpent._Linv, c.call(serpent._L, X)).ival, X.ival))
+    c.ensure('L(Linv(x))', val.eq(c.call(serpent._L, c.call(serpent._Linv, X)).ival, X.ival))
+
+@obligation(P, 'crysp.serpent.Serpent/roundtrip', cls='L', opaque=SP.NAMES, cases={'dir': ['dec(enc)', 'enc(dec)']}, funcs=['crysp.serpent.Serpent.enc', 'crysp.serpent.Serpent.dec'])
+def _(c):
+    install_serpent_contracts(c)
+    for i in range(8):
+        c.axiom_inverse(SP.S[i], SP.SINV[i], 'C03 crysp.serpent._S-_Sinv/inverse'); c.axiom_inverse(SP.SINV[i], SP.S[i], 'C03 crysp.serpent._S-_Sinv/inverse')
+    c.axiom_inverse(SP.L, SP.LINV, 'C03 crysp.serpent.IP-FP-L/inverse'); c.axiom_inverse(SP.LINV, SP.L, 'C03 crysp.serpent.IP-FP-L/inverse')
+    s = serpent.Serpent.__new__(serpent.Serpent)
+    s.keys = [c.bits('k%d' % i, 128) for i in range(33)]
+    blk = c.bytes('B', 16)
+    if c.case('dir') == 'dec(enc)':
+        mid = c.call(serpent.Serpent.enc, s, blk); out = c.call(serpent.Serpent.dec, s, mid)
+    else:
+        mid = c.call(serpent.Serpent.dec, s, blk); out = c.call(serpent.Serpent.enc, s, mid)
+    c.ensure('identity', val.eq(out, blk)); c.ensure('length', land(len(mid) == 16, len(out) == 16))
+
+# =====================================================================  Threefish
+@obligation(P, 'crysp.threefish.Threefish.MIX-MIXinv/inverse', cls='L', cases={'nw': [4, 8, 16]}, funcs=['crysp.threefish.Threefish.__MIX', 'crysp.threefish.Threefish.__MIXinv'], timeout=200)
+def _(c):
+    nw = c.case('nw')
+    t = threefish.Threefish(bytes(8 * nw), bytes(16))
+    for d in range(8):
+        for j in range(nw // 2):
+            x0 = c.bits('x%d_%d' % (d, j), 64); x1 = c.bits('y%d_%d' % (d, j), 64)
+            y = c.call(threefish.Threefish._Threefish__MIX, t, x0, x1, d, j)
+            z = c.call(threefish.Threefish._Threefish__MIXinv, t, y[0], y[1], d, j)
+            c.ensure('MIXinv(MIX) d=%d j=%d' % (d, j), land(val.eq(z[0].ival, x0.ival), val.eq(z[1].ival, x1.ival)))
+            y = c.call(threefish.Threefish._Threefish__MIXinv, t, x0, x1, d, j)
+            z = c.call(threefish.Threefish._Threefish__MIX, t, y[0], y[1], d, j)
+            c.ensure('MIX(MIXinv) d=%d j=%d' % (d, j), land(val.eq(z[0].ival, x0.ival), val.eq(z[1].ival, x1.ival)))
+    pi, piinv = t._Threefish__pi, t._Threefish__piinv
+    c.ensure('pi-inverse', sorted(pi) == list(range(nw)) and all(piinv[pi[i]] == i for i in range(nw)))
+
+@obligation(P, 'crysp.threefish.Threefish/roundtrip', cls='L', opaque=TF.NAMES, cases={'nw': [4, 8, 16], 'dir': ['dec(enc)', 'enc(dec)']}, funcs=['crysp.threefish.Threefish.enc', 'crysp.threefish.Threefish.dec'], timeout=200)
+def _(c):
+    nw = c.case('nw')
+    install_threefish_contracts(c)
+    for r in range(64):
+        c.axiom_inverse(TF._MIX[r], TF._MIXINV[r], 'C03 Threefish.MIX-MIXinv/inverse'); c.axiom_inverse(TF._MIXINV[r], TF._MIX[r], 'C03 Threefish.MIX-MIXinv/inverse')
+    key = c.bytes('K', 8 * nw); tw = c.bytes('T', 16); blk = c.bytes('B', 8 * nw)
+    t = c.call(threefish.Threefish, key, tw)
+    if c.case('dir') == 'dec(enc)':
+        mid = c.call(threefish.Threefish.enc, t, blk); out = c.call(threefish.Threefish.dec, t, mid)
+    else:
+        mid = c.call(threefish.Threefish.dec, t, blk); out = c.call(threefish.Threefish.enc, t, mid)
+    c.ensure('identity', val.eq(out, blk)); c.ensure('length', land(len(mid) == 8 * nw, len(out) == 8 * nw))
+
+# =====================================================================  Salsa / ChaCha index maps (finite)
+@obligation(P, 'salsa-chacha.index-maps/inverse', cls='E', funcs=['crysp.salsa20', 'crysp.chacha'], domain={})
+def _(c):
+    for mod in (salsa20, chacha):
+        for f, g in ((mod.rM, mod.rMinv), (mod.cM, mod.cMinv)):
+            c.ensure('%s permutation' % mod.__name__, sorted(f) == list(range(16)) and sorted(g) == list(range(16)))
+            c.ensure('%s inverse' % mod.__name__, all(g[f[i]] == i and f[g[i]] == i for i in range(16)))
